@@ -112,6 +112,31 @@ func TestScenarios(t *testing.T) {
 			if x.R.Dead {
 				t.Fatalf("application died during the scenario")
 			}
+			// delayed effects promised by the scenario's name must be visible at the end of the run
+			final := x.R.Dump()
+			has := func(prefix string) bool {
+				for _, kv := range final {
+					if strings.HasPrefix(string(kv.K), prefix) {
+						return true
+					}
+				}
+				return false
+			}
+			if strings.Contains(sc.Note, "finalize") {
+				if !has("propFinalized") {
+					t.Fatalf("no finalized proposal at the end of the run")
+				}
+				if strings.Contains(sc.Note, "same-endblock") {
+					if !has("propFailed") {
+						t.Fatalf("second proposal did not expire")
+					}
+				} else if has("propFunds_i_") { // the total record stays, set to 0
+					t.Fatalf("proposal funds not distributed at the end of the run")
+				}
+			}
+			if !strings.HasPrefix(sc.Kind, "DOMAIN") && strings.Contains(sc.Note, "expire") && !has("propFailed") {
+				t.Fatalf("no failed (expired) proposal at the end of the run")
+			}
 			want := relevant[sc.Kind]
 			if want == nil {
 				t.Fatalf("no relevant key prefixes registered for kind %s", sc.Kind)
